@@ -26,6 +26,8 @@ structure DState where
   bld : Option SetB := none
   exp : ExpState := {}
   specExp : ExpSpec.Tracker := {}
+  /-- templatesMap[id].elements of the exporter model (Life.recordTemplates), for `exp refresh` -/
+  expTpls : List (Nat × List IE) := []
   e2eExp : ExpState := {}
   e2eColl : CState := {}
   e2eMode : Mode := .strict
